@@ -191,6 +191,6 @@ def check(case):
 
 
 def phases(tier):
-    n = {"quick": 16 * 1300, "thorough": 16 * 30000}[tier]
+    n = {"quick": 16 * 1100, "thorough": 16 * 30000}[tier]
     return [dict(name="grid", kind="enumerate", cases=grid_cases, check=check),
             dict(name="main", kind="hypothesis", strategy=cases(tier), check=check, examples=n)]
